@@ -1298,7 +1298,9 @@ def big_io_check(D, kind, directed, n, keys, target):
                     len(got), len(exp), next((i for i, (a, b) in enumerate(zip(sorted(got), exp)) if a != b), min(len(got), len(exp))))
         else:
             exp = ['%s %s %s %s' % e for e in G.stream_interactions()]
-            if lines != exp:
+            if [int(ln.rsplit(' ', 1)[1]) for ln in lines] != sorted(int(ln.rsplit(' ', 1)[1]) for ln in lines):
+                return 'FAIL: the rows written are not in chronological order'
+            if sorted(lines) != sorted(exp):
                 return 'FAIL: %d rows written, the stream has %d events' % (len(lines), len(exp))
         kw = dict(nodetype=int, timestamptype=int, directed=directed)
         if keys:
@@ -1315,9 +1317,13 @@ def big_io_check(D, kind, directed, n, keys, target):
             if have != want:
                 return 'FAIL: timelines read back %r, written %r' % (have[:3], want[:3])
         else:
+            # chronological order is part of the property, the order of the events of one instant is not
             ev = lambda K: [(norm(u, v), op, t) for u, v, op, t in K.stream_interactions()]
             want = [(p, op, rank[t]) for p, op, t in ev(G)]
             have = ev(H)
+            if [x[2] for x in have] != sorted(x[2] for x in have):
+                return 'FAIL: the stream read back is not chronological'
+            want, have = sorted(want, key=lambda x: (x[2], x)), sorted(have, key=lambda x: (x[2], x))
             if have != want:
                 return 'FAIL: %d events read back, %d written (first difference at %d)' % (
                     len(have), len(want), next((i for i, (a, b) in enumerate(zip(have, want)) if a != b), min(len(have), len(want))))
